@@ -32,9 +32,10 @@ grep -v "no test files" "$OUT/suite.log" | grep -v "^ok" | tail -5 > "$OUT/suite
 sha=$(git -C /repo rev-parse --short HEAD)
 cd /verif && tools/mutant-run.sh "$PID" "$OUT/patch.diff" >"$OUT/check.log" 2>&1; rc=$?
 keys=$(grep -a "^  key=" "$OUT/check.log" | sed 's/^  key=//' | sort -u | tr '\n' ';')
-cat > "$OUT/result.json" <<EOF
-{"property": "$PID", "name": "$NAME", "repo_head": "$sha", "build": "$build", "existing_suite_with_change": "$suite",
- "demo_without_change": "$demo_without", "demo_with_change": "$demo_with", "check_exit": $rc, "check_keys": "$keys",
- "ran": "tools/seed-intake.sh $PID $NAME $SRC $DEMOPKG $RX"}
+python3 - "$OUT/result.json" "$PID" "$NAME" "$sha" "$build" "$suite" "$demo_without" "$demo_with" "$rc" "$keys" "tools/seed-intake.sh $PID $NAME $SRC $DEMOPKG $RX" <<'EOF'
+import json,sys
+a=sys.argv
+json.dump({"property":a[2],"name":a[3],"repo_head":a[4],"build":a[5],"existing_suite_with_change":a[6],
+ "demo_without_change":a[7],"demo_with_change":a[8],"check_exit":int(a[9]),"check_keys":a[10],"ran":a[11]},open(a[1],"w"),indent=1)
 EOF
 cat "$OUT/result.json"
